@@ -54,6 +54,10 @@ func invFns() []invFn {
 		{name: "fpanic2", def: "fpanic2 := func(x) { c++; if x > 0 { gopanic() }; return c }", min: 1, kind: "int", throws: true},
 		{name: "fdrain", def: "var fdrain\nfdrain = func(n) { c++; if n <= 0 { return c }; fdrain(n - 1) }", min: 1, kind: "small"},
 		{name: "fdrain2", def: "var fdrain2\nfdrain2 = func(n) { c++; if c > n + 3 { return c }; fdrain2(n) }", min: 1, kind: "small"},
+		// discarded self tail calls at depth 0, then an error thrown in a NESTED compiled function: the run
+		// ends while a deeper frame is current
+		{name: "fdrainthrow", def: "var fdrainthrow\nfdrainthrow = func(n) { c++; if n <= 0 { fthrow(5); return c }; fdrainthrow(n - 1) }", min: 1, kind: "small", throws: true},
+		{name: "fdrainerr", def: "var fdrainerr\nfdrainerr = func(n) { c++; if n <= 0 { return [ferr(0)] }; fdrainerr(n - 1) }", min: 1, kind: "small", throws: true},
 		{name: "ftail", def: "var ftail\nftail = func(n) { c++; if n <= 0 { return c * 2 }; return ftail(n - 1) }", min: 1, kind: "small"},
 		{name: "fundef", def: "fundef := func(a, b) { if b == undefined { return -1 }; return a }", min: 2, kind: "any"},
 	}
